@@ -19,7 +19,7 @@ ID = "C20"
 RULE = ("evaluations = (function, held-lock-set) contexts walked by the translator over the SSA of lal + naza; "
         "distinct_nontrivial = distinct lock-order edges found; every edge carries one witness call chain")
 ASSUMPTIONS = [
-    "PARTIAL: decided by proof = lock-order deadlock freedom over the translator's graph (mutexes, RWMutex as exclusive, sync.Once.Do as a lock held around its function) and the guarded-field facts for logic.Group / logic.ServerManager.groupManager; NOT decided = data races in general, channel operations (exitChan sends), WaitGroup/Cond, blocking I/O under a lock",
+    "PARTIAL: decided by proof = lock-order deadlock freedom over the translator's graph (mutexes, RWMutex as exclusive, sync.Once.Do as a lock held around its function) and the guarded-field facts for EVERY struct of lal / naza that has a mutex field (guarded field = configured, or inferred: accessed at least once under the struct's mutex and written after construction); NOT decided = data races in general, channel operations (exitChan sends), WaitGroup/Cond, blocking I/O under a lock",
     "trusted: the translator harness/cmd/lockgraph (go/packages + go/ssa + VTA call graph refined from CHA, golang.org/x/tools v0.29.0) and its reviewed configuration harness/cmd/lockgraph/c20_config.json (whitelist with a justification per entry; entries used in a run are echoed in coverage.reviewed_assumptions_used)",
     "lock classes: two instances of one type.field are one node (two Groups = one class), so the theorem also excludes 'group A then group B'",
     "code outside the lal and naza modules (standard library) is not walked: function literals passed to it are assumed to be called synchronously with the caller's locks held; methods of lal/naza types matching a standard-library interface method are followed when such an object is passed; objects stored inside standard-library wrappers (bufio around a connection) and calls made by reflection (fmt verbs calling String/Error) are not followed",
@@ -186,6 +186,12 @@ def run(ctx, cases, cov, violations, known_hits, notes):
     cov["lock_sites"] = len(g["lock_sites"])
     cov["translator_stats"] = g["stats"]
     cov["guarded_fields_seen"] = len(g["fields"])
+    per = {}
+    for gb in g.get("guarded_by", []):
+        per.setdefault(gb["mutex"], []).append(gb["field"].rsplit(".", 1)[1] + ("" if gb["how"] == "configured" else "*"))
+    cov["guarded_fields_by_mutex (* = inferred: accessed under the mutex and written after construction)"] = per
+    cov["mutex_classes_without_guarded_fields"] = g.get("mutex_classes_without_guarded_fields", [])
+    cov["mutable_fields_never_accessed_under_the_mutex (not checked)"] = g.get("mutable_fields_never_accessed_under_the_mutex", [])
     cov["accesses_without_guard_covered_by_whitelist"] = len(g["exempted"])
     cov["std_callable_locking_methods"] = g["std_callable_locking_methods"]
     cov["reviewed_assumptions_used"] = [dict(x) for x in g["infeasible_calls_used"]] + \
